@@ -20,8 +20,8 @@ def one(ctx, C, Pc, tol, kind, meta):
     rec = {}
     opq = C._pq_completion
 
-    def pq(Pp):
-        q = opq(Pp)
+    def pq(Pp, *a, **k):
+        q = opq(Pp, *a, **k)
         rec["Q"] = np.array(q.coef, dtype=complex)
         return q
     C._pq_completion = pq
@@ -98,6 +98,9 @@ def run(tier, seed):
                 kind = "not-a-corner:perturbed"
                 Pc = Pc + 0.05 * (rng.normal(size=len(Pc)) + 1j * rng.normal(size=len(Pc))) * (np.abs(Pc) > 0)
             one(ctx, C, list(Pc), tol, kind, {"style": style, "source_phases": ph})
+    if not ctx.dist.get("outcome:ok"):
+        raise core.InfraError("no completion returned at all: every clause of C05 was exercised vacuously (outcomes: %s)"
+                              % {k: v for k, v in ctx.dist.items() if k.startswith("outcome:")})
     return ctx.finish(
         rule="complex definite-parity P of degree 1..16 (corners of phase lists in 6 styles; scaled / perturbed non-corners) x tol grid; "
              "a case is one call completion_from_root_finding(P, 'P'); distinct = distinct (P, tol)")
